@@ -415,3 +415,8 @@ def run(repo: Repo, rep: Report, tier: str) -> None:
                 rep.check(ok8, "C01-R8", f"{f8.short}: value operand of ir_builder.{call_name(c8)}(...) #{n8} derives from expr.value",
                           "; ".join(v[:90] for v in vals) if ok8 else f"value operand is {vals}: the literal's value expression is dropped on this path (e.g. `(\"signal-A\", 5 * 2 - 9)` yields signal-A = 0)", f8.loc(c8))
     rep.floor("C01-R8", "IR nodes built for a typed literal", n8, 2)
+
+    # ---------------- R9 ---------------------------------------------------------------
+    from .shared import borrow as _borrow1
+    _borrow1(repo, rep, "C10", "C10-R3", "C01-R9", "`cond : value` delivers the value the program wrote: deciders that differ in their output value (or any other semantic field) are never merged",
+             select=lambda o: "IRDecider." in o.construct, floor=4)
